@@ -541,7 +541,7 @@ func init() {
 	vc.Register(&vc.Check{
 		ID:    "C04",
 		Level: "model_checking",
-		Rule: "histories: every sequence WITH repetition of deliveries to one real Serf node whose member table was filled through the real handlers with one member per state (b unknown, c alive, d leaving, e left, f failed, the node itself alive; recorded status time 5); shorter sequences are checked as prefixes (oracle after every step). intents/<state> (one scenario per member X; quick length 4): join intents about X at times {5,6,7}, leave intents at {5,6,7}, pruning leave intents at {6,7} (equal/higher than the record, lower/equal/higher than a buffered intent), state-sync merges carrying X as joined at 6 / as left after 5, memberlist alive notification about X, a 6 min tick (expires buffered intents; for b also a 40 s tick that must not). Thorough: 'wide' (length 4: also time 4, prune at 5, 40 s tick, memberlist dead notification) and 'deep' (length 5 on 10-11 letters). events/queries for buffer sizes 2 and 4 (length 4; thorough length 5 for buffer 2): user events (2 names, times 0,1,N,N+1,2N+1 colliding in slots), queries (ids 7,8,9, slot collisions, NoBroadcast flag, a filter excluding the node), merges carrying events or moving the event/query clock, the node's own UserEvent/Query and the echo of it. mixed (length 4 quick, 5 thorough; thorough also length 6 on 7 letters): letters of every kind over all members incl. merges naming everybody. Each step is Delegate.NotifyMsg / MergeRemoteState / a local call on the real node, run to quiescence, then the broadcast queue is drained and queued copies are counted per message (byte identity). closure: two real nodes a1, a2 with the same member table (knowing each other), every ordered pair (thorough: also triples on a reduced alphabet) of 70 messages (intents about a1,a2,b..f at 5,6,7, events, queries) injected into a1 (or into both), then each node's queue is fed to the other until both are empty. A state is the canonical private state after a history. non-trivial = history/closure in which at least one delivery was NOT re-broadcast (duplicate, stale or refused message)",
+		Rule:  "histories: every sequence WITH repetition of deliveries to one real Serf node whose member table was filled through the real handlers with one member per state (b unknown, c alive, d leaving, e left, f failed, the node itself alive; recorded status time 5); shorter sequences are checked as prefixes (oracle after every step). intents/<state> (one scenario per member X; quick length 4): join intents about X at times {5,6,7}, leave intents at {5,6,7}, pruning leave intents at {6,7} (equal/higher than the record, lower/equal/higher than a buffered intent), state-sync merges carrying X as joined at 6 / as left after 5, memberlist alive notification about X, a 6 min tick (expires buffered intents; for b also a 40 s tick that must not). Thorough: 'wide' (length 4: also time 4, prune at 5, 40 s tick, memberlist dead notification) and 'deep' (length 5 on 10-11 letters). events/queries for buffer sizes 2 and 4 (length 4; thorough length 5 for buffer 2): user events (2 names, times 0,1,N,N+1,2N+1 colliding in slots), queries (ids 7,8,9, slot collisions, NoBroadcast flag, a filter excluding the node), merges carrying events or moving the event/query clock, the node's own UserEvent/Query and the echo of it. mixed (length 4 quick, 5 thorough; thorough also length 6 on 7 letters): letters of every kind over all members incl. merges naming everybody. Each step is Delegate.NotifyMsg / MergeRemoteState / a local call on the real node, run to quiescence, then the broadcast queue is drained and queued copies are counted per message (byte identity). closure: two real nodes a1, a2 with the same member table (knowing each other), every ordered pair (thorough: also triples on a reduced alphabet) of 70 messages (intents about a1,a2,b..f at 5,6,7, events, queries) injected into a1 (or into both), then each node's queue is fed to the other until both are empty. A state is the canonical private state after a history. non-trivial = history/closure in which at least one delivery was NOT re-broadcast (duplicate, stale or refused message)",
 		Assumptions: []string{
 			"'retention window' (epoch) of an intent about X ends when the node legitimately forgets it: X's member record is erased by an accepted pruning leave (the same message is then new again), or the buffered intent about an unknown X expires (RecentIntentTimeout); for user events and queries it ends when the Lamport time leaves the node's window (clock - buffer size). Erasure by the reaper after Tombstone/Reconnect timeouts (24 h) is not explored",
 			"only copies of a delivered message count as re-broadcasts; the node's own originations (UserEvent, Query, refuting join about itself) do not",
